@@ -408,6 +408,7 @@ func (e *Engine) frameCheck() *FuncResult {
 	// shared node would be written (or raced on) through a fresh parent
 	{
 		retGlobal := map[*ssa.Function]bool{}
+		retWhy := map[*ssa.Function]string{}
 		var globalDerived func(v ssa.Value) (bool, string)
 		globalDerived = func(v ssa.Value) (bool, string) {
 			for _, r := range frameRoots(v) {
@@ -435,6 +436,9 @@ func (e *Engine) frameCheck() *FuncResult {
 			if refType(t) {
 				return true
 			}
+			if _, isStruct := t.Underlying().(*types.Struct); isStruct {
+				return isIfaceOrStruct(t) // a struct value carrying a reference (Base.RenderFNs)
+			}
 			if _, isIface := t.Underlying().(*types.Interface); isIface {
 				if mi, ok := v.(*ssa.MakeInterface); ok {
 					return refType(mi.X.Type())
@@ -443,9 +447,27 @@ func (e *Engine) frameCheck() *FuncResult {
 			}
 			return false
 		}
+		// scanned: everything reachable from the entry points, and every other function of the
+		// repository (constructors such as NewPostgresDriver run at package initialisation and
+		// build the data the entry points then use)
+		scan := append([]*ssa.Function{}, reach...)
+		{
+			in := map[*ssa.Function]bool{}
+			for _, f := range reach {
+				in[f] = true
+			}
+			var extra []*ssa.Function
+			for _, f := range e.allFuncs {
+				if !in[f] && e.realFunc(f) && !isGhostClosure(f) && f.Pkg != nil && !strings.HasSuffix(f.Pkg.Pkg.Path(), "/cmd") && !strings.HasSuffix(f.Pkg.Pkg.Path(), "/verifspec") {
+					extra = append(extra, f)
+				}
+			}
+			sort.Slice(extra, func(i, j int) bool { return extra[i].String() < extra[j].String() })
+			scan = append(scan, extra...)
+		}
 		for changed := true; changed; {
 			changed = false
-			for _, f := range reach {
+			for _, f := range scan {
 				if retGlobal[f] {
 					continue
 				}
@@ -459,8 +481,9 @@ func (e *Engine) frameCheck() *FuncResult {
 							if !isRefVal(r) {
 								continue
 							}
-							if g, _ := globalDerived(r); g {
+							if g, what := globalDerived(r); g {
 								retGlobal[f] = true
+								retWhy[f] = what
 								changed = true
 							}
 						}
@@ -468,7 +491,7 @@ func (e *Engine) frameCheck() *FuncResult {
 				}
 			}
 		}
-		for _, f := range reach {
+		for _, f := range scan {
 			why, pos := "", token.NoPos
 			for _, b := range f.Blocks {
 				for _, in := range b.Instrs {
@@ -500,8 +523,20 @@ func (e *Engine) frameCheck() *FuncResult {
 				}
 				add("no-shared-references/"+shortFuncName(f), why == "", pos, info)
 			}
+			// an exported function is a boundary of the ownership argument: what it returns is
+			// owned by its caller, so it must not be (or contain) package-level data
+			if retGlobal[f] && f.Parent() == nil && f.Object() != nil && f.Object().Exported() {
+				add("no-shared-references/result-of-"+shortFuncName(f), false, f.Pos(), "the result of an exported function is or contains a reference to package-level data ("+retWhy[f]+"): its caller can change data that every other caller uses")
+			}
 		}
-		add("no-shared-references/all-reachable", true, token.NoPos, fmt.Sprintf("%d reachable functions scanned for references to package-level data stored into data structures", len(reach)))
+		nexp := 0
+		for _, f := range scan {
+			if f.Parent() == nil && f.Object() != nil && f.Object().Exported() {
+				nexp++
+			}
+		}
+		add("no-shared-references/exported-results", true, token.NoPos, fmt.Sprintf("%d exported functions scanned: a result that is or contains package-level data is an obligation of its own", nexp))
+		add("no-shared-references/all-reachable", true, token.NoPos, fmt.Sprintf("%d functions scanned for references to package-level data stored into data structures", len(scan)))
 	}
 	add("deterministic/all-reachable", true, token.NoPos, fmt.Sprintf("%d reachable functions scanned for map iteration, clocks, randomness, environment access, pointer-to-integer conversions", len(reach)))
 	// package-level variables are written only during initialisation
